@@ -197,6 +197,18 @@ theorem execD_vmov_elem (n d i j nv dv : Nat) (hij : i < 4 ∧ j < 4) (hn : v[n]
   have hdv' : v[d] = dv := by rw [List.getElem?_eq_getElem hd] at hdv; exact Option.some.inj hdv
   simp [execD, ins, R, exMove, getV, setV, hn, hdv', hd, hij]
 
+theorem execD_vdup4 (n d i nv : Nat) (hi : i < 4) (hn : v[n]? = some nv) (hd0 : v[d]? = some d0) :
+    execD ⟨g, v, mem, syms, frame⟩ (ins .VDUP [R n, R d] [.S i, .S4])
+      = .ok ⟨g, v.set d (vdupS 4 i nv), mem, syms, frame⟩ := by
+  have hd := lt_of_get hd0
+  simp [execD, ins, R, exMove, getV, setV, hn, hd, hi]
+
+theorem execD_vdup2 (n d i nv : Nat) (hi : i < 4) (hn : v[n]? = some nv) (hd0 : v[d]? = some d0) :
+    execD ⟨g, v, mem, syms, frame⟩ (ins .VDUP [R n, R d] [.S i, .S2])
+      = .ok ⟨g, v.set d (vdupS 2 i nv), mem, syms, frame⟩ := by
+  have hd := lt_of_get hd0
+  simp [execD, ins, R, exMove, getV, setV, hn, hd, hi]
+
 theorem execD_movd_sym (name : String) (off d a : Nat) (hs : lookup syms name = some a) (hd0 : g[d]? = some d0) :
     execD ⟨g, v, mem, syms, frame⟩ (ins .MOVD [.symAddr name off, G d] [.none, .none])
       = .ok ⟨g.set d (a + off), v, mem, syms, frame⟩ := by
@@ -279,6 +291,62 @@ theorem execD_st1_lane (b n i gb nv : Nat) (mem' : List Region) (hi : i < 4)
     execD ⟨g, v, mem, syms, frame⟩ (ins .VST1 [R n, M b 0] [.S i, .none])
       = .ok ⟨g, v, mem', syms, frame⟩ := by
   simp [execD, ins, R, M, exSt1, baseAddr, getG, getV, storeBytes, writeBack, hb, hn, hi, hstore]
+
+/-- little-endian word `j` of a byte string -/
+def leWord (bs : List Nat) (j : Nat) : Nat := unlanes 8 ((bs.drop (4 * j)).take 4)
+
+/-- `VLD4 (Rb), [Va.S4, …]` (`post = false`, `disp = 0`) and `VLD4.P 64(Rb), [Va.S4, …]` (`post = true`, `disp = 64`) -/
+theorem execD_ld4 (post : Bool) (b n0 n1 n2 n3 gb : Nat) (bs : List Nat)
+    (hc : n1 = (n0 + 1) % 32 ∧ n2 = (n0 + 2) % 32 ∧ n3 = (n0 + 3) % 32)
+    (hb : g[b]? = some gb)
+    (e0 : v[n0]? = some x0) (e1 : v[n1]? = some x1) (e2 : v[n2]? = some x2) (e3 : v[n3]? = some x3)
+    (hload : readMem mem gb 64 = .ok bs) :
+    execD ⟨g, v, mem, syms, frame⟩
+        (ins (if post then .VLD4P else .VLD4) [M b (if post then 64 else 0), L4 n0 n1 n2 n3] [.none, .S4])
+      = .ok ⟨if post then g.set b ((gb + 64) % 2 ^ 64) else g,
+          (((v.set n0 (unlanes 32 [leWord bs 0, leWord bs 4, leWord bs 8, leWord bs 12])).set n1
+              (unlanes 32 [leWord bs 1, leWord bs 5, leWord bs 9, leWord bs 13])).set n2
+              (unlanes 32 [leWord bs 2, leWord bs 6, leWord bs 10, leWord bs 14])).set n3
+              (unlanes 32 [leWord bs 3, leWord bs 7, leWord bs 11, leWord bs 15]),
+          mem, syms, frame⟩ := by
+  have hbl := lt_of_get hb
+  have h0 := lt_of_get e0
+  have h1 := lt_of_get e1
+  have h2 := lt_of_get e2
+  have h3 := lt_of_get e3
+  have hb' : g[b] = gb := by rw [List.getElem?_eq_getElem hbl] at hb; exact Option.some.inj hb
+  cases post <;>
+    simp [execD, ins, M, L4, exLd4, baseAddr, listRegs, hc.1.symm, hc.2.1.symm, hc.2.2.symm, getG, setV, setG,
+      loadBytes, writeBack, hb', hbl, h0, h1, h2, h3, hload, List.range, List.range.loop, List.foldlM, leWord]
+
+/-- the 64 bytes stored by ST4 {Va.4S – Va+3.4S} -/
+def st4Bytes (a b c d : Nat) : List Nat :=
+  lanes 8 4 (lane 32 0 a) ++ lanes 8 4 (lane 32 0 b) ++ lanes 8 4 (lane 32 0 c) ++ lanes 8 4 (lane 32 0 d) ++
+  lanes 8 4 (lane 32 1 a) ++ lanes 8 4 (lane 32 1 b) ++ lanes 8 4 (lane 32 1 c) ++ lanes 8 4 (lane 32 1 d) ++
+  lanes 8 4 (lane 32 2 a) ++ lanes 8 4 (lane 32 2 b) ++ lanes 8 4 (lane 32 2 c) ++ lanes 8 4 (lane 32 2 d) ++
+  lanes 8 4 (lane 32 3 a) ++ lanes 8 4 (lane 32 3 b) ++ lanes 8 4 (lane 32 3 c) ++ lanes 8 4 (lane 32 3 d)
+
+/-- `VST4 [Va.S4, …], (Rb)` (`post = false`) and `VST4.P [Va.S4, …], 64(Rb)` (`post = true`) -/
+theorem execD_st4 (post : Bool) (b n0 n1 n2 n3 gb t0 t1 t2 t3 : Nat) (mem' : List Region)
+    (hc : n1 = (n0 + 1) % 32 ∧ n2 = (n0 + 2) % 32 ∧ n3 = (n0 + 3) % 32)
+    (hb : g[b]? = some gb)
+    (h0 : v[n0]? = some t0) (h1 : v[n1]? = some t1) (h2 : v[n2]? = some t2) (h3 : v[n3]? = some t3)
+    (hstore : writeMem mem gb (st4Bytes t0 t1 t2 t3) = .ok mem') :
+    execD ⟨g, v, mem, syms, frame⟩
+        (ins (if post then .VST4P else .VST4) [L4 n0 n1 n2 n3, M b (if post then 64 else 0)] [.S4, .none])
+      = .ok ⟨if post then g.set b ((gb + 64) % 2 ^ 64) else g, v, mem', syms, frame⟩ := by
+  have hbl := lt_of_get hb
+  have hb' : g[b] = gb := by rw [List.getElem?_eq_getElem hbl] at hb; exact Option.some.inj hb
+  simp only [st4Bytes, List.append_assoc] at hstore
+  cases post <;>
+    simp [execD, ins, M, L4, exSt4, baseAddr, listRegs, hc.1.symm, hc.2.1.symm, hc.2.2.symm, getG, getV, setG,
+      storeBytes, writeBack, hb', hbl, h0, h1, h2, h3, List.range, List.range.loop, hstore]
+
+theorem execD_vmov_full (n d nv : Nat) (hn : v[n]? = some nv) (hd0 : v[d]? = some d0) :
+    execD ⟨g, v, mem, syms, frame⟩ (ins .VMOV [R n, R d] [.B16, .B16])
+      = .ok ⟨g, v.set d (nv % 2 ^ 128), mem, syms, frame⟩ := by
+  have hd := lt_of_get hd0
+  simp [execD, ins, R, exMove, getV, setV, hn, hd]
 
 end
 
